@@ -29,7 +29,8 @@ NLoc == (1..MaxId) \X (Parts \cup {"blk"})
 
 M == INSTANCE RC11 WITH Thread <- Thread, ALoc <- ALoc, NLoc <- NLoc
 
-VARIABLES l, mem, skipping
+VARIABLES l, mem, skipping,
+          made, rel      \* object ids (re)created inside the run / released so far: exactly-once release, no leak
 
 Fresh == M!InitMem([a \in ALoc |-> 0], 0)
 
@@ -62,23 +63,38 @@ Consistent(r, m) ==
     (r.ev = "atomic" /\ r.op \in {"load", "cas_fail", "swap", "fetch_add", "fetch_or", "fetch_and", "fetch_sub", "cas_ok"})
         => r.obs = M!LastVal(m, r.loc)
 
-TraceInit == l = 1 /\ mem = Fresh /\ skipping = FALSE
+TraceInit == l = 1 /\ mem = Fresh /\ skipping = FALSE /\ made = {} /\ rel = {}
+
+Rej(why) == PrintT(<<"REJECT", ToJson([line |-> l, why |-> why, rec |-> Rec[l]])>>)
+
+\* storage accounting: "" = fine, otherwise the reason to reject
+Account(r) ==
+    CASE r.ev = "created" /\ r.obj \in (made \ rel) -> "storage handed out while its previous tenant has not released it"
+      [] r.ev = "release" /\ r.obj \in rel -> "storage released twice"
+      [] r.ev = "end" /\ r.outcome # "completed" -> "run did not terminate"
+      [] r.ev = "end" /\ (made \ rel) # {} -> "storage never released (leak)"
+      [] r.ev = "end" /\ ~(r.pool_len \in {-1, 0}) -> "pool or lake not empty at quiescence"
+      [] OTHER -> ""
 
 TraceNext ==
     /\ l <= NRec
     /\ l' = l + 1
     /\ LET r == Rec[l] IN
-       IF r.ev = "reset" THEN mem' = Fresh /\ skipping' = FALSE
-       ELSE IF skipping \/ ~(r.ev \in {"atomic", "cell", "release", "created"}) THEN UNCHANGED <<mem, skipping>>
+       IF r.ev = "reset" THEN mem' = Fresh /\ skipping' = FALSE /\ made' = {} /\ rel' = {}
+       ELSE IF skipping \/ ~(r.ev \in {"atomic", "cell", "release", "created", "end"}) THEN UNCHANGED <<mem, skipping, made, rel>>
+       ELSE IF Account(r) # ""
+            THEN Rej(Account(r)) /\ skipping' = TRUE /\ UNCHANGED <<mem, made, rel>>
+       ELSE IF r.ev = "end" THEN UNCHANGED <<mem, skipping, made, rel>>
        ELSE IF ~Consistent(r, mem)
-            THEN /\ PrintT(<<"REJECT", ToJson([line |-> l, why |-> "recording is not sequentially consistent (harness defect)", rec |-> r])>>)
-                 /\ skipping' = TRUE /\ UNCHANGED mem
+            THEN /\ Rej("recording is not sequentially consistent (harness defect)")
+                 /\ skipping' = TRUE /\ UNCHANGED <<mem, made, rel>>
             ELSE LET nm == Apply(r, mem) IN
                  /\ mem' = nm
+                 /\ made' = IF r.ev = "created" THEN made \cup {r.obj} ELSE made
+                 /\ rel' = IF r.ev = "created" THEN rel \ {r.obj} ELSE IF r.ev = "release" THEN rel \cup {r.obj} ELSE rel
                  /\ IF nm.race
-                    THEN /\ PrintT(<<"REJECT", ToJson([line |-> l, why |-> "data race or access to released storage", rec |-> r])>>)
-                         /\ skipping' = TRUE
+                    THEN Rej("data race or access to released storage") /\ skipping' = TRUE
                     ELSE skipping' = FALSE
 
-TraceSpec == TraceInit /\ [][TraceNext]_<<l, mem, skipping>>
+TraceSpec == TraceInit /\ [][TraceNext]_<<l, mem, skipping, made, rel>>
 =============================================================================
